@@ -41,7 +41,9 @@ impl tracing::field::Visit for MsgVisitor {
 
 impl<S: tracing::Subscriber> tracing_subscriber::Layer<S> for TapLayer {
     fn enabled(&self, meta: &tracing::Metadata<'_>, _: tracing_subscriber::layer::Context<'_, S>) -> bool {
-        meta.target().starts_with("netconf::transport")
+        // every level of every target of the library: field expressions of its events are evaluated
+        // (one that takes a lock the caller already holds blocks the run, which the watchdog reports)
+        meta.target().starts_with("netconf")
     }
     fn on_event(&self, event: &tracing::Event<'_>, _: tracing_subscriber::layer::Context<'_, S>) {
         let mut v = MsgVisitor(String::new());
